@@ -99,9 +99,11 @@ class GcodeHandlers(object):
         if (clockwise):
             angularTravel -= TWO_PI
 
-        # Make a circle if the angular travel is 0 and the target is current position
-        if (angularTravel == 0) and (x == endX) and (y == endY):
-            angularTravel = TWO_PI
+        # Make a full circle (in the commanded direction) if the target is the current position.
+        # The computed angular travel can't be relied upon in that case: rounding errors in the
+        # center offsets make it come out as zero, a tiny angle or nearly a full turn.
+        if (x == endX) and (y == endY):
+            angularTravel = -TWO_PI if (clockwise) else TWO_PI
 
         # Compute the number of segments to produce based on the length of the arc
         arcLength = abs(angularTravel) * radius
